@@ -41,6 +41,15 @@ func (t *Tree) Lookup(p string) *Entry {
 			return &t.Entries[i]
 		}
 	}
+	// directories may be implied by the files below them
+	for i := range t.Entries {
+		if strings.HasPrefix(t.Entries[i].Path, p+"/") {
+			return &Entry{Path: p, Kind: KDir}
+		}
+	}
+	if p == "." {
+		return &Entry{Path: ".", Kind: KDir}
+	}
 	return nil
 }
 
